@@ -143,6 +143,11 @@ class Projector:
             if type(x) is int and x in table:
                 d[op[1]] = table[x]
             return d
+        if k == 'int_add':
+            d = OrderedDict(d)
+            if type(d.get(op[1])) is int:
+                d[op[1]] = d[op[1]] + op[2]
+            return d
         if k == 'map_to_scalar':
             x = d.get(op[1])
             if type(x) is str:
